@@ -18,6 +18,49 @@ FULL16_QUICK = ('header:0', 'header:1', 'method:Basic.Ack')
 REDUCED_ALPHABET = b'SAFTDxt\x00\x01\x04\xffa'
 
 
+LARGE_KINDS = ['strings', 'voids', 'ints', 'empty-tables', 'decimals',
+               'timestamps', 'bytearrays', 'nested', 'blobs', 'keys']
+
+
+def _arr(items):
+    body = b''.join(items)
+    return b'A' + struct.pack('>I', len(body)) + body
+
+
+def _tbl(items):
+    body = b''.join(bytes([len(k)]) + k + v for k, v in items)
+    return b'F' + struct.pack('>I', len(body)) + body
+
+
+def large_values(kind, n):
+    """Dense, grammar-valid field values with n elements."""
+    if kind == 'strings':
+        return _arr([b'S\x00\x00\x00\x01a'] * n)
+    if kind == 'voids':
+        return _arr([b'V'] * n)
+    if kind == 'ints':
+        return _tbl([(b'k%05d' % i, b'b\x01') for i in range(n)])
+    if kind == 'empty-tables':
+        return _arr([b'F\x00\x00\x00\x00', b'A\x00\x00\x00\x00'] * (n // 2))
+    if kind == 'decimals':
+        return _arr([b'D\x02\x00\x00\x01\x3a'] * n)
+    if kind == 'timestamps':
+        return _arr([b'T' + struct.pack('>Q', 1600000000)] * n)
+    if kind == 'bytearrays':
+        return _arr([b'x\x00\x00\x00\x01a'] * n)
+    if kind == 'nested':
+        v = _arr([b'S\x00\x00\x00\x01a'] * (n // 40))
+        for _ in range(40):
+            v = _arr([v, b'V'])
+        return v
+    if kind == 'blobs':
+        return _arr([b'S' + struct.pack('>I', n * 4) + b'a' * (n * 4),
+                     b'x' + struct.pack('>I', n * 4) + b'\xce' * (n * 4)])
+    if kind == 'keys':
+        return _tbl([(b'%0120d' % i, b't\x01') for i in range(n // 8)])
+    raise ValueError(kind)
+
+
 def tasks(tier, seed=0):
     n = len(krep())
     out = []
@@ -41,7 +84,8 @@ def tasks(tier, seed=0):
             out.append(('small', e, first))
         out.append(('small', e, -1))
     out += [('shapes', k) for k in range(8)]
-    out += [('short',)]
+    out += [('short',), ('nested-short',)]
+    out += [('large', k) for k in range(len(LARGE_KINDS))]
     return out
 
 
@@ -97,6 +141,24 @@ def inputs(task, tier, seed=0):
         for i, (label, data) in enumerate(faults.header_shapes(tier)):
             if i % 8 == task[1]:
                 yield label, data
+    elif kind == 'nested-short':
+        depth = 16 if tier == 'thorough' else 12
+        wraps = dict(faults.envelopes())
+        for label, body in faults.nested_short(depth):
+            yield label + ' (method argument table)', wraps['table-body'](body)
+            props = b'\x20\x00' + struct.pack('>I', len(body)) + body
+            yield label + ' (headers property)', wraps['header-flags'](props)
+    elif kind == 'large':
+        which = LARGE_KINDS[task[1]]
+        wraps = dict(faults.envelopes())
+        sizes = (1500, 6000, 12000) if tier == 'thorough' else (1500, 6000)
+        for n in sizes:
+            body = b'\x01k' + large_values(which, n)
+            yield 'large %s x%d (method argument table)' % (which, n), \
+                wraps['table-body'](body)
+            props = b'\x20\x00' + struct.pack('>I', len(body)) + body
+            yield 'large %s x%d (headers property)' % (which, n), \
+                wraps['header-flags'](props)
     elif kind == 'short':
         # every byte string of length 0..3 over the sharp alphabet + 'AMQP'
         alpha = bytes(faults.SHARP) + b'AMQP\x02\x03\x08'
